@@ -147,6 +147,12 @@ class FakeFile(object):
 
     recv = read
 
+    def readinto(self, b):
+        # SocketIO.readinto: up to len(b) bytes, returns the count
+        data = self.read(len(b))
+        b[:len(data)] = data
+        return len(data)
+
     def close(self):
         link = self.link
         with link.cond:
